@@ -8,7 +8,7 @@ d = os.path.join("/verif/seeded", name)
 os.makedirs(d, exist_ok=True)
 shutil.copy(os.path.join(wt, "mutation.diff"), os.path.join(d, "patch.diff"))
 shutil.copy(os.path.join(wt, "tests/seeded_demo.rs"), os.path.join(d, "seeded_demo.rs"))
-conf = open("/tmp/wt/confirm1.log").read() if os.path.exists("/tmp/wt/confirm1.log") else ""
+conf = "".join(open(f).read() for f in ["/tmp/wt/confirm1.log", "/tmp/wt/confirm2.log", "/tmp/wt/confirm3.log"] if os.path.exists(f))
 line = [l for l in conf.splitlines() if l.startswith(os.path.basename(wt) + ":")]
 res = {}
 save = "/tmp/evidence.save"
